@@ -78,10 +78,12 @@ def gen_case(ctx, idx, stream='case'):
     if r.random() < 0.5:
         r.shuffle(perm)
     c['src_order'] = perm                   # list position -> slice index along the normal
-    c['type'] = r.choice(['BINARY', 'BINARY', 'FRACTIONAL', 'LABELMAP'])
-    c['dtype'] = r.choice(DTYPES)
+    # type x dtype x layout are stratified (every triple once per 40 consecutive indices, BINARY twice), the rest is drawn
+    k = (idx + ctx.rng('rotation', 0).randrange(40)) % 40
+    c['type'] = ['BINARY', 'FRACTIONAL', 'LABELMAP', 'BINARY'][k % 4]
+    c['dtype'] = DTYPES[(k // 4) % 5]
     isfloat = c['dtype'].startswith('float')
-    c['layout'] = r.choice(['3d', '4d'])
+    c['layout'] = ['3d', '4d'][(k // 20) % 2]
     if c['planes'] == 1 and c['layout'] == '3d' and r.random() < 0.4:
         c['layout'] = '2d'
     nseg = r.choice([1, 1, 2, 2, 3, 4, 5])
@@ -129,7 +131,7 @@ def gen_case(ctx, idx, stream='case'):
         c['bad'] = r.choice(applicable)
     c['read_perm_seed'] = r.randrange(1 << 30)
     # memory layout of the user's array: the same values behind different strides / flags
-    c['mem'] = r.choice(['C', 'C', 'C', 'C', 'F', 'T', 'T', 'neg', 'strided', 'readonly', 'slice4'])
+    c['mem'] = ['C', 'F', 'T', 'C', 'neg', 'strided', 'C', 'readonly', 'slice4', 'T', 'C'][(idx // 40 + idx) % 11]
     # geometry of the sources (the mask must stay attached to the right source whatever the stacking direction)
     c['orientation'] = r.choice([[1, 0, 0, 0, 1, 0]] * 3 + [[0, 1, 0, 0, 0, -1], [1, 0, 0, 0, 0, -1], [-1, 0, 0, 0, 1, 0],
                                                             [0, 1, 0, 1, 0, 0], [0.6, 0.8, 0, -0.8, 0.6, 0]])
@@ -878,6 +880,66 @@ def _escalate_l2(ctx):
         _compare(ctx, reqs, pending, escalate=False)
 
 
+ANCHORS = {
+    'seg/sop.py': ['Segmentation._check_segment_numbers', 'Segmentation._check_and_cast_pixel_array',
+                   'Segmentation._combine_segments', 'Segmentation._get_nonempty_plane_indices',
+                   'Segmentation._get_segment_pixel_array', 'Segmentation._get_pffg_item',
+                   'Segmentation._encode_pixels_native', 'Segmentation._get_pixels_by_seg_frame',
+                   'Segmentation.get_pixels_by_source_instance', 'Segmentation.get_pixels_by_source_frame'],
+    'image.py': ['_Image._build_luts_multiframe', '_Image._iterate_indices_for_stack', '_Image._get_pixels_by_frame',
+                 '_Image._do_columns_identify_unique_frames', '_Image.get_raw_frame', '_Image.get_stored_frame'],
+    'frame.py': ['encode_frame', 'decode_frame'],
+}
+_DRIFT = None
+
+
+def _anchor_hashes():
+    """Normalised AST hash (docstrings stripped) of every hand-modelled function of the current tree."""
+    import ast
+    import hashlib
+    import hd_env
+    out = {}
+    for rel, quals in ANCHORS.items():
+        try:
+            tree = ast.parse(open(os.path.join(hd_env.HD_REPO, 'src', 'highdicom', rel)).read())
+        except OSError:
+            continue
+        for qual in quals:
+            node = tree
+            for part in qual.split('.'):
+                node = next((n for n in getattr(node, 'body', []) if isinstance(n, (ast.ClassDef, ast.FunctionDef))
+                             and n.name == part), None)
+                if node is None:
+                    break
+            if node is None:
+                out[f'{rel}::{qual}'] = 'missing'
+                continue
+            body = node.body
+            if body and isinstance(body[0], ast.Expr) and isinstance(getattr(body[0], 'value', None), ast.Constant) \
+                    and isinstance(body[0].value.value, str):
+                body = body[1:]
+            txt = ast.unparse(node.args) + '\n' + '\n'.join(ast.unparse(b) for b in body)
+            out[f'{rel}::{qual}'] = hashlib.sha256(txt.encode()).hexdigest()[:16]
+    return out
+
+
+def _drift_factor(ctx):
+    """DESIGN 5.4: a hand-modelled function whose source differs from the version the model was validated against
+    does not alarm; it only multiplies the case budget of the quick tier (a search heuristic)."""
+    global _DRIFT
+    if _DRIFT is None:
+        path = os.path.join(os.path.dirname(__file__), '..', 'anchors_C01.json')
+        try:
+            ref = json.load(open(path))
+        except OSError:
+            ref = {}
+        cur = _anchor_hashes()
+        _DRIFT = sorted(k for k in cur if ref.get(k) != cur[k])
+        if _DRIFT:
+            ctx.note('anchor_drift (budget x4 in the quick tier): ' + ', '.join(_DRIFT))
+    return 4 if (_DRIFT and ctx.tier == 'quick' and not ctx.search_mode) else 1
+
+
 def _exhaustive_sizes(ctx, reqs, pending):
     """Finite sub-domain enumerated completely: BINARY, 1 x n frames for every n in 1..N and every plane count
     1..P (all residues mod 8 on both sides of 8 pixels, every number of carried bits), both empty-frame policies."""
@@ -906,7 +968,7 @@ def run(ctx):
     _helpers(ctx, reqs, pending)
     if not ctx.search_mode:
         _exhaustive_sizes(ctx, reqs, pending)
-    for idx in range(ctx.n(250, 5000)):
+    for idx in range(ctx.n(480, 5000) * _drift_factor(ctx)):
         c = gen_case(ctx, idx)
         run_case(ctx, c, reqs, pending)
     _compare(ctx, reqs, pending)
@@ -982,3 +1044,16 @@ def attribute(failure, open_findings):
             and 1 not in (c.get('segs') or [1])):
         return 'C01-float-labelmap-undescribed'
     return None
+
+
+if __name__ == '__main__':
+    # /venv/bin/python harness/corr/C01.py --refresh-anchors   (after the model has been re-validated against the tree)
+    import sys
+    sys.path.insert(0, os.path.join(os.path.dirname(os.path.abspath(__file__)), '..'))
+    if '--refresh-anchors' in sys.argv:
+        import hd_env
+        hd_env.setup()
+        h = _anchor_hashes()
+        with open(os.path.join(os.path.dirname(os.path.abspath(__file__)), '..', 'anchors_C01.json'), 'w') as f:
+            json.dump(h, f, indent=1, sort_keys=True)
+        print(len(h), 'anchors written')
